@@ -141,7 +141,22 @@ def _tsv_clean(s):
 def id_lists(draw, n, kind="simple", prefix="o"):
     """`n` distinct non-empty IDs."""
     if kind == "simple":
-        style = draw(st.integers(0, 3))
+        style = draw(st.integers(0, 4))
+        if style == 4:
+            # valid but awkward: format characters, quotes, blanks inside,
+            # numeric-looking, zero-padded twins, prefixes of one another,
+            # case twins, non-ASCII, one very long ID
+            pool = ["50%", "a%%b", "%s", '"q"', "'q", "x y", "a#b", "1", "1.0",
+                    "01", "run1", "run01", "ab", "abc", "Ab", "AB", "é",
+                    "漢", "a:b", "a: b", "x;y", "x|y", "[1]", "{k}", "a/b",
+                    "a\\b", "-", "_", "L" * 120, "None", "nan", "True"]
+            ids = list(draw(st.permutations(pool)))[:n]
+            ids = [prefix + ":" + i if draw(st.integers(0, 9)) == 0 else i
+                   for i in ids]
+            ids += ["%s_%d" % (prefix, i) for i in range(n - len(ids))]
+            if len(set(ids)) == len(ids):
+                return ids
+            style = 0
         if style == 0:
             ids = ["%s%d" % (prefix, i) for i in range(n)]
         elif style == 1:
